@@ -12,8 +12,10 @@ import (
 // owns the seqnums (L-1-i)*10 + {1..8}; every entry of level i is newer than every entry of every
 // level below it. Inside a band: the newer version of a user key has offset 6, the older one 3; a
 // range tombstone has offset 8 (newer than every point of its level), 5 (between the two versions;
-// only generated when its file holds an older version) or 1 (older than every point of its level,
-// so it deletes only entries of lower levels).
+// only generated when its file holds an older version inside the span) or 1 (older than every
+// point of its level, so it deletes only entries of lower levels; only generated when its file
+// holds a point inside the span, otherwise it is equivalent to offset 8). Layouts without any
+// point entry are skipped.
 
 var ukeys = []string{"a", "b", "c"}
 
@@ -59,12 +61,6 @@ func (l aLevel) key() string {
 func tombOptions(pts []aPt, lo, hi string) []*aTomb {
 	// lo: spans must start at or after lo ("" = no constraint); hi: must end at or before hi.
 	out := []*aTomb{nil}
-	hasOld := false
-	for _, p := range pts {
-		if p.off == 3 {
-			hasOld = true
-		}
-	}
 	for _, sp := range spans {
 		if lo != "" && sp[0] < lo {
 			continue
@@ -72,9 +68,21 @@ func tombOptions(pts []aPt, lo, hi string) []*aTomb {
 		if hi != "" && sp[1] > hi {
 			continue
 		}
-		offs := []uint64{8, 1}
-		if hasOld {
+		// Offsets 5 and 1 differ from 8 only through the file's own points inside the span.
+		offs := []uint64{8}
+		inSpan, oldInSpan := false, false
+		for _, p := range pts {
+			if sp[0] <= ukeys[p.k] && ukeys[p.k] < sp[1] {
+				inSpan = true
+				if p.off == 3 {
+					oldInSpan = true
+				}
+			}
+		}
+		if oldInSpan {
 			offs = []uint64{8, 5, 1}
+		} else if inSpan {
+			offs = []uint64{8, 1}
 		}
 		for _, o := range offs {
 			out = append(out, &aTomb{s: sp[0], e: sp[1], off: o})
@@ -170,6 +178,7 @@ type family struct {
 	minTombs int  // at least this many tombstones (a family may concentrate on tombstone layouts)
 	maxDup   int  // user keys (per level, summed) that have two versions
 	maxFiles int  // total number of files
+	maxTotal int  // total number of entries (points + tombstones); 0 = no cap
 	mem      bool // additionally: every layout whose newest level is a single file, with that level as a memtable
 }
 
@@ -208,7 +217,7 @@ func enumerate(f family) []LSM {
 	var rec func(npts, ntombs, ndup, nfiles int)
 	rec = func(npts, ntombs, ndup, nfiles int) {
 		if len(cur) == f.levels {
-			if ntombs < f.minTombs {
+			if ntombs < f.minTombs || npts == 0 {
 				return
 			}
 			out = append(out, materialize(cur, false))
@@ -219,6 +228,9 @@ func enumerate(f family) []LSM {
 		}
 		for _, o := range opts {
 			if npts+o.npts > f.maxPts || ntombs+o.ntombs > f.maxTombs || ndup+o.ndup > f.maxDup || nfiles+len(o.files) > f.maxFiles {
+				continue
+			}
+			if f.maxTotal > 0 && npts+o.npts+ntombs+o.ntombs > f.maxTotal {
 				continue
 			}
 			cur = append(cur, o)
